@@ -438,7 +438,7 @@ func (c *c15Case) Run(ctx *core.Ctx) {
 				}
 				// what the cache holds now (reference model of the documented cache: an entry is
 				// replaced whenever the file's mtime differs from the stored one, a failed load
-				// stores nothing, a file that is never reached is not touched)
+				// drops the entry, a file that is never reached is not touched)
 				if arg != "fragment" {
 					ok := func(f string) bool { return w.files[f].exists && !w.files[f].invalid }
 					upd := func(f string) {
@@ -449,9 +449,15 @@ func (c *c15Case) Run(ctx *core.Ctx) {
 					}
 					if ok("page") {
 						upd("page")
-						if eng == "tpl" && ok("comp") && ok("lay") {
-							upd("lay")
+						if eng == "tpl" && ok("comp") {
+							if ok("lay") {
+								upd("lay")
+							} else {
+								delete(w.held[eng], "lay") // a failed load drops the entry
+							}
 						}
+					} else {
+						delete(w.held[eng], "page")
 					}
 				}
 			}
